@@ -347,7 +347,7 @@ PROPS["C19"] = {
     "thorough_budget_s": 1500,
     "extra_builds": ["cli"],
     "env": {"WACVERIF_CLI": "{TARGET}/cli/release/wac"},
-    "floors": {"any": {"compose:library-ok": 200, "compose:output-equal": 200, "compose:failure-equal": 300,
+    "floors": {"any": {"compose:dep-path-with-equals-sign": 20, "compose:library-ok": 200, "compose:output-equal": 200, "compose:failure-equal": 300,
                        "compose:library-fails:parse": 30, "compose:library-fails:discovery": 30, "compose:library-fails:resolution": 30,
                        "compose:library-fails:encode": 20, "compose:library-fails:unknown-package": 30,
                        "text-output-assembled-and-compared": 100, "diagnostics-compared": 300,
@@ -494,14 +494,14 @@ PROPS["C14"] = {
     "floors": {"any": {"parse:ok": 200, "parse:error": 2000, "from_bytes:ok": 100, "from_bytes:error": 1000,
                        "input:random-text": 100, "input:generated-doc-mutant": 1000, "input:truncation": 1000,
                        "input:fixture-mutant": 100, "input:package-mutant": 1000, "input:random-bytes": 100,
-                       "input:shaped-wat-mutant": 100, "input:document-package-pairing": 100, "shaped-wat": 10, "shaped-binary": 1,
+                       "input:shaped-wat-mutant": 100, "input:document-package-pairing": 100, "shaped-wat": 10, "shaped-binary": 1, "deep:nested-result-error-position": 4, "deep:nested-tuple-last-position": 4,
                        "chain:alias-chain": 3, "chain:list-chain": 3, "chain:use-chain": 3, "chain:include-chain": 3, "chain:nesting-inside-the-limit": 3}},
     "lanes": {"thorough": [{"name": "asan", "cases": 1500, "workers": 16, "budget_s": 900},
                            {"name": "miri", "cases": 2, "workers": 12, "budget_s": 1200}]},
     "rule": "Texts: random token/unicode soup; grammar-generated documents with 1-3 character-level edits (delete, insert "
             "punctuation / multi-byte / bidi / NUL characters, replace, swap, duplicate a chunk, truncate) and truncation at every "
-            "character boundary of small documents; character-level mutants of the repository's fixture documents; 8 kinds of "
-            "deep nesting (parentheses, list<>, tuple<>, option<result<>>, nested `new`, nested block comments, access chains) at "
+            "character boundary of small documents; character-level mutants of the repository's fixture documents; 14 kinds of "
+            "deep nesting (parentheses, list<>, tuple<>, option<result<>>, result<> in the ok and in the error position, the last tuple position, types in a function signature and in a record field, nested `new`, parentheses in a named argument, nested block comments, access chains) at "
             "depths 10..100000 capped at 1 MiB of source (parser only); 5 kinds of long definition chains (type aliases, list<> of the "
             "previous type, interfaces `use`-ing the previous interface, worlds including the previous world, nesting just inside the "
             "parser's 64-level limit) of 10..3000 definitions through parse, resolve and encode. Packages: generated components and 6 byte-level mutants each "
